@@ -989,6 +989,9 @@ fn c09_window_clone_independent() {
 	kani::assume(k < n);
 	let before = seq(&arr, n, idx, n - 1 - k); // k-th newest
 	assert!(c[k as PeriodType] == before && c.len() as usize == n, "clone has the same content");
+	// ... in the same storage order: MeanAbsDev / MedianAbsDev / CCI sum over as_slice() in raw buffer order, so a
+	// clone that re-orders the buffer continues with a different rounding (not bit-identical)
+	assert!(c.as_slice()[k] == w.as_slice()[k] && c.as_slice().len() == n, "clone keeps the storage order of the buffer");
 	let x: u8 = kani::any();
 	let y: u8 = kani::any();
 	let into_original: bool = kani::any();
